@@ -104,6 +104,10 @@ func newReadOnlySegment(basePath string, baseOffset int64) (ReadOnlySegment, err
 		}
 	}
 
+	if len(ms.idx) < 4 {
+		return nil, errors.Wrapf(codec.ErrDataCorrupted, "segment index file %s has no entries", ms.c.idxPath)
+	}
+
 	ms.lastOffset = ms.c.baseOffset + int64(len(ms.idx)/4-1)
 
 	// recover the last crc
